@@ -52,13 +52,27 @@ class FlattenedInstance:
         return ":".join([p.name or "_" for p in self.path])
 
 
+def _unique_name(names: Dict[str, tuple], name: str, ident: tuple) -> str:
+    """Get a name for the object identified by `ident`: `name`, unless that is taken by another object,
+    in which case underscores are appended until it is not. Records the result in `names`."""
+    while names.setdefault(name, ident) != ident:
+        name += "_"
+    return name
+
+
 def walk(
     m: h.Module,
     parents: List[h.Instance],
     conns: Optional[Dict[str, h.Signal]] = None,
+    names: Optional[Dict[str, tuple]] = None,
 ) -> Generator[FlattenedInstance, None, None]:
+    if names is None:
+        names = dict()
     if conns is None:
         conns = {**m.signals, **m.ports}
+        # The top-level names are taken, by the top-level signals and ports
+        for key in conns:
+            names[key] = ("sig", (), key)
     for inst in m.instances.values():
         new_conns = {}
         new_parents = parents + [inst]
@@ -76,23 +90,23 @@ def walk(
             else:
                 raise TypeError(f"Invalid connection {sig}")
 
-            new_sig_name = ":".join([p.name for p in parents] + [key])
             if key in conns:
                 target_sig = conns[key]
-            elif key in m.signals:
-                target_sig = replace(
-                    _copy_to_internal(m.signals[key]), name=new_sig_name
-                )
-            elif key in m.ports:
-                target_sig = replace(_copy_to_internal(m.ports[key]), name=new_sig_name)
+            elif key in m.signals or key in m.ports:
+                # An internal net. Name it by its hierarchical path, while avoiding the names of all other nets.
+                sig = m.signals[key] if key in m.signals else m.ports[key]
+                ident = ("sig", tuple(id(p) for p in parents), key)
+                new_sig_name = ":".join([p.name for p in parents] + [key])
+                new_sig_name = _unique_name(names, new_sig_name, ident)
+                target_sig = replace(_copy_to_internal(sig), name=new_sig_name)
             else:
                 raise ValueError(f"signal {key} not found")
             new_conns[src_port_name] = target_sig
 
-        if isinstance(inst.of, h.PrimitiveCall):
+        if isinstance(inst.of, (h.PrimitiveCall, h.ExternalModuleCall)):
             yield FlattenedInstance(inst, new_parents, new_conns)
         else:
-            yield from walk(inst.of, new_parents, new_conns)
+            yield from walk(inst.of, new_parents, new_conns, names)
 
 
 def _find_signal_or_port(m: h.Module, name: str) -> h.Signal:
@@ -169,7 +183,8 @@ def flatten(m: h.Instantiable) -> h.Instantiable:
         return m
 
     # recursively walk the module and collect all primitive instances
-    nodes: List[FlattenedInstance] = list(walk(m, parents=[]))
+    names: Dict[str, tuple] = dict()  # All the names taken in the flattened module
+    nodes: List[FlattenedInstance] = list(walk(m, parents=[], names=names))
 
     # Create our new, flattened Module
     # Note that by virtue of going through elaboration above, `m.name` should be set.
@@ -189,7 +204,10 @@ def flatten(m: h.Instantiable) -> h.Instantiable:
 
     # add all connections to the root level with names resolved
     for n in nodes:
-        new_inst = new_module.add(n.inst.of(), name=n.make_name())
+        ident = ("inst", tuple(id(p) for p in n.path))
+        new_inst = new_module.add(
+            n.inst.of(), name=_unique_name(names, n.make_name(), ident)
+        )
 
         for src_port_name, sig in n.conns.items():
             matching_sig = _find_signal_or_port(new_module, sig.name)
